@@ -74,6 +74,20 @@ inductive Res where
   | endOK
   | srcErr
   | ctxErr
+  /-- the error of the stream's *own* background context (`bgCtx.Err()`), which no source produced and
+  no consumer's context carries — possible only when `bgCtx` can end without `Close` (label `bgEnds`) -/
+  | bgErr
+  deriving DecidableEq, Repr
+
+/-- Where `BatchFunc`'s background context comes from (the regenerated right-hand side of
+`bgCtx, bgCancel := …`): `context.WithCancel(context.Background())` — done only when `bgCancel` is
+called —, a context with a deadline of its own (`WithTimeout` / `WithDeadline`: done after a while
+whatever anybody does, with `context.DeadlineExceeded`), or anything else (a parent that somebody else
+may cancel: done at any time, with `context.Canceled`). -/
+inductive BgOrigin where
+  | plainCancel
+  | deadline
+  | other
   deriving DecidableEq, Repr
 
 /-- Ghost record of one hand-over batcher → consumer. -/
@@ -130,7 +144,45 @@ structure Code where
   guardBareClosed : Bool
   guardWrapClosed : Bool
   guardOtherClosed : Bool
+  /-- the guard for a `context.DeadlineExceeded` out of `s.Next(bgCtx)` while `bgCtx.Err()` is
+  `DeadlineExceeded` (only reachable when `bgOrigin = .deadline`) -/
+  guardDeadlineExpired : Bool
+  /-- where `bgCtx` comes from -/
+  bgOrigin : BgOrigin
+  /-- `bgCancel` is used nowhere but: defined, stored in the stream's `bgCancel` field, called first
+  thing in `batchStream.Close` (the regenerated list of *every* occurrence of the identifier in the
+  package is exactly that) -/
+  bgCancelOnlyInClose : Bool
+  /-- the producer hands `bgCtx` itself to the source's `Next` -/
+  srcNextGetsBg : Bool
+  /-- `bgCtx` occurs nowhere but: defined, argument of the producer's `s.Next`, in the producer's guard,
+  in the `<-bgCtx.Done()` arms of the hand-off and of `flush` (nobody else is given it, nothing else
+  selects on it) -/
+  bgCtxUsesPinned : Bool
   deriving DecidableEq, Repr
+
+/-- `bgCtx` can become done although `Close` has not been called: it has a deadline / a foreign
+parent, or `bgCancel` has escaped to somewhere else than `Close`. -/
+def Code.bgMayEnd (k : Code) : Bool := (k.bgOrigin != .plainCancel) || !k.bgCancelOnlyInClose
+
+/-- "`bgCtx` is done exactly when `Close` has called `bgCancel()`, and it is what the source's `Next` is
+given": the three regenerated facts the LTS's `bgCancelled` flag stands on. Every property theorem that
+needs it states it as a conjunct of its own (so that a changed origin / a stray use of `bgCancel` /
+another context handed to the source breaks *that* theorem, not only the tie `code_is_good`). -/
+def Code.BgTied (k : Code) : Prop :=
+  k.bgOrigin = .plainCancel ∧ k.bgCancelOnlyInClose = true ∧ k.srcNextGetsBg = true ∧ k.bgCtxUsesPinned = true
+
+instance (k : Code) : Decidable k.BgTied := by unfold Code.BgTied; infer_instance
+
+/-- The regenerated right-hand side of `bgCtx, bgCancel := …`, classified. `plainCancel` needs all
+of: one single assignment to the pair, whose text is the expected one (constructor
+`context.WithCancel`, one argument, `context.Background()`). -/
+def bgOriginOf (assigns : List String) (ctor parent : String) (nargs : Nat) : BgOrigin :=
+  if assigns = ["bgCtx, bgCancel := context.WithCancel(context.Background())"] ∧ ctor = "context.WithCancel" ∧
+      parent = "context.Background()" ∧ nargs = 1 then .plainCancel
+  else if ctor = "context.WithTimeout" ∨ ctor = "context.WithDeadline" ∨ ctor = "context.WithTimeoutCause" ∨
+      ctor = "context.WithDeadlineCause" then .deadline
+  else .other
 
 /-- The code as it is now (every field is a closed term over the generated facts). -/
 def code : Code where
@@ -168,6 +220,16 @@ def code : Code where
   guardBareClosed := Gen.Batch.prodCancelGuard true true true true
   guardWrapClosed := Gen.Batch.prodCancelGuard false true true true
   guardOtherClosed := Gen.Batch.prodCancelGuard false false true true
+  guardDeadlineExpired := Gen.Batch.prodCancelGuard false false false true
+  bgOrigin := bgOriginOf Gen.Batch.bgCtxAssigns Gen.Batch.bgCtxCtor Gen.Batch.bgCtxParent Gen.Batch.bgCtxCtorArgs
+  bgCancelOnlyInClose := Gen.Batch.bgCancelUses ==
+    ["BatchFunc: assigned (:=)", "BatchFunc: bgCancel: bgCancel", "BatchFunc: bgCancel: bgCancel",
+     "type batchStream: field bgCancel context.CancelFunc", "batchStream.Close: iter.bgCancel()"]
+  srcNextGetsBg := Gen.Batch.srcNextCtxArg == "bgCtx"
+  bgCtxUsesPinned := Gen.Batch.bgCtxUses ==
+    ["BatchFunc: assigned (:=)", "BatchFunc.func0: item, err := s.Next(bgCtx)",
+     "BatchFunc.func0: if err == context.Canceled && bgCtx.Err() == context.Canceled",
+     "BatchFunc.func0: <-bgCtx.Done()", "BatchFunc.func1.func1: <-bgCtx.Done()"]
 
 /-- Parameters of one stream: `maxWait` and which answers `full` may give (`Batch`: exactly the
 generated predicate; `BatchFunc`: whatever the user function says). -/
@@ -175,9 +237,11 @@ structure Cfg where
   maxWait : Nat
   fullOK : List Nat → Bool → Bool
 
-/-- `Batch(s, maxWait, batchSize)`: `full` is the generated `len(batch) >= batchSize`. -/
+/-- `Batch(s, maxWait, batchSize)`: `full` is the generated `len(batch) >= batchSize`, and the
+`maxWait` that reaches `BatchFunc` is the regenerated second argument of the `BatchFunc(…)` call in
+`Batch` (`maxWait` itself on the unchanged tree). -/
 def Cfg.ofBatch (maxWait batchSize : Nat) : Cfg where
-  maxWait := maxWait
+  maxWait := (Gen.Batch.batchMaxWaitArg (maxWait : Int)).toNat
   fullOK := fun b r => r == Gen.Batch.batchFull (b.length : Int) (batchSize : Int)
 
 /-- `BatchFunc` with an arbitrary (even non-deterministic, stateful) `full`. -/
@@ -214,6 +278,11 @@ structure State where
   bgCancelled : Bool := false
   closeReturned : Bool := false
   now : Nat := 0
+  -- only for code whose `bgCtx` can end without Close (`Code.bgMayEnd`; never set otherwise)
+  /-- `bgCtx` became done of its own accord (deadline passed / somebody else cancelled it) -/
+  bgExpired : Bool := false
+  /-- `out.err` holds `bgCtx`'s error, which no source produced -/
+  errBg : Bool := false
   deriving DecidableEq, Repr
 
 def init : State := {}
@@ -227,6 +296,8 @@ inductive Label where
   | ctxExpire                -- the pending call's context expires
   | tick (d : Nat)           -- the clock advances
   | close                    -- `Close` is called (`bgCancel()`)
+  | bgEnds                   -- `bgCtx` becomes done although `Close` has not been called (its deadline
+                             -- passes, `bgCancel` is called from elsewhere): enabled iff `Code.bgMayEnd`
   -- producer
   | prodCancelled            -- `s.Next(bgCtx)` fails because bgCtx is cancelled
   | prodSend                 -- hand-off producer → batcher over `c` (joint with the loop's `<-c` arm)
@@ -251,8 +322,14 @@ inductive Label where
 
 /-- Labels that are not choices of the environment (the source, the consumer's caller, the clock). -/
 def Label.internal : Label → Bool
-  | .srcRet _ | .srcCancelErr _ | .nextCall _ | .ctxExpire | .tick _ | .close => false
+  | .srcRet _ | .srcCancelErr _ | .nextCall _ | .ctxExpire | .tick _ | .close | .bgEnds => false
   | _ => true
+
+/-- `bgCtx.Done()` is closed: `Close` has called `bgCancel()`, or — only for code with
+`Code.bgMayEnd` — the context ended of its own accord. (`bgExpired` is set by the label `bgEnds` only,
+which needs `k.bgMayEnd`; repeating the test here keeps the term free of `bgExpired` for the code the
+proofs are about.) -/
+def bgDone (k : Code) (s : State) : Bool := s.bgCancelled || (k.bgMayEnd && s.bgExpired)
 
 def stopTimer (k : Code) (s : State) : State :=
   { s with timer := .idle, timerCSet := if k.stopTimerClearsTimerC then false else s.timerCSet }
@@ -309,8 +386,22 @@ def step (k : Code) (cfg : Cfg) (s : State) : Label → Option State
   | .tick d => some { s with now := s.now + d }
   | .close =>
     if s.bgCancelled = false ∧ s.cons = .idle then some { s with bgCancelled := true } else none
+  | .bgEnds =>
+    if k.bgMayEnd = true ∧ s.bgCancelled = false ∧ s.bgExpired = false then some { s with bgExpired := true }
+    else none
   | .prodCancelled =>
-    if s.ppc = .next ∧ s.bgCancelled = true then some { s with ppc := .closeC } else none
+    -- the source's `Next` was given `bgCtx` and returns `bgCtx.Err()` because `bgCtx` is done. What the
+    -- producer does with that error is the regenerated guard: after `Close` (and for a context that
+    -- somebody else cancelled) the error is `context.Canceled` and `bgCtx.Err()` is too; a context
+    -- whose own deadline passed yields `DeadlineExceeded` on both sides. Guard not taken: the
+    -- producer records the context's error as if the source had failed (`out.err = err`).
+    if s.ppc = .next ∧ bgDone k s = true ∧ k.srcNextGetsBg = true then
+      let taken := if k.bgMayEnd && s.bgExpired && (k.bgOrigin == .deadline) then k.guardDeadlineExpired
+                   else k.guardBareClosed
+      if taken then some { s with ppc := .closeC }
+      else some { s with ppc := .closeC, err := s.err || k.producerRecordsErr,
+                         errBg := s.errBg || k.producerRecordsErr }
+    else none
   | .prodSend =>
     match s.ppc with
     | .send v =>
@@ -321,7 +412,7 @@ def step (k : Code) (cfg : Cfg) (s : State) : Label → Option State
     | _ => none
   | .prodSendCancel =>
     match s.ppc with
-    | .send _ => if s.bgCancelled = true ∧ k.prodCancelArm = true then some { s with ppc := .closeC } else none
+    | .send _ => if bgDone k s = true ∧ k.prodCancelArm = true then some { s with ppc := .closeC } else none
     | _ => none
   | .prodCloseC =>
     if s.ppc = .closeC then some { s with ppc := .closeSrc, cClosed := s.cClosed || k.producerClosesC } else none
@@ -347,7 +438,7 @@ def step (k : Code) (cfg : Cfg) (s : State) : Label → Option State
     else none
   | .flushAbort =>
     match s.bpc with
-    | .flush _ => if s.bgCancelled = true ∧ k.flushAbortArm = true then some { s with bpc := .exit } else none
+    | .flush _ => if bgDone k s = true ∧ k.flushAbortArm = true then some { s with bpc := .exit } else none
     | _ => none
   | .batchExit =>
     if s.bpc = .exit then
@@ -387,7 +478,8 @@ def step (k : Code) (cfg : Cfg) (s : State) : Label → Option State
   | .consClosed =>
     if s.cons ≠ .idle ∧ s.batchCClosed = true ∧ (s.cons = .outer → k.outerRecv = true) ∧
         (s.cons = .inner → k.innerRecv = true) then
-      some { s with cons := .idle, results := s.results ++ [if s.err then .srcErr else .endOK] }
+      let r : Res := if s.err then (if k.bgMayEnd && s.errBg then .bgErr else .srcErr) else .endOK
+      some { s with cons := .idle, results := s.results ++ [r] }
     else none
   | .consCtx =>
     if s.cons ≠ .idle ∧ s.ctxDone = true ∧ (s.cons = .outer → k.outerCtx = true) ∧
